@@ -40,12 +40,12 @@ T_C05 == /\ P!AtMostOnce(Log) /\ P!InOrder(Log) /\ P!RestartsNumbered(Events) /\
          /\ P!StoppedLast(Log) /\ P!IncMonotone(Log) /\ P!IncOrder(Log)      \* what follows a failure goes to a fresh, initialised receiver
          /\ R.quiet => \A a \in Actors : (Reg[a] /\ P!NotStopping(Issued, Events, a)) => \A k \in Accepted[a] : P!Handled(Log, a, k)
 T_C06 == /\ P!RestartsBounded(Events) /\ R.witness /\ (R.respawns = 0 => P!ExhaustedOnce(Events))
-         /\ (R.quiet /\ R.respawns = 0) => P!CleanAfterExhaustion(Events, Issued, Reg, TRUE)
+         /\ (R.quiet /\ R.respawns = 0) => P!CleanAfterExhaustion(Events, Issued, Reg, FALSE)
 T_C06_Clean_strict == (R.quiet /\ R.respawns = 0) => P!CleanAfterExhaustion(Events, Issued, Reg, FALSE)
 T_C07 == /\ P!KindsKnown(Log)
          /\ P!DoneAfterStop(Log, Done, TRUE)
          /\ P!Drained(Log, Events, Done, Issued, SentBefore)
-         /\ R.quiet => P!AllDone(Done, Issued, Events, TRUE)
+         /\ R.quiet => P!AllDone(Done, Issued, Events, FALSE)
 T_C07_DoneAfterStop_strict == P!DoneAfterStop(Log, Done, FALSE)
 T_C07_AllDone_strict == R.quiet => P!AllDone(Done, Issued, Events, FALSE)
 T_C08 == /\ P!KidsFirst(Log, Issued, Events, TRUE)
